@@ -324,7 +324,7 @@ PROPS["C07"] = {
 	] + [
 		H(f"c07_folder_{n}_c{c}", SRV, c07, funcs=["Folder::get_data", "Url::new", "Url::as_path"],
 			bounds=f"every request '/' + '{ch}' + {n - 1} bytes over the alphabet {{'/', '.', 'a', '%', '2', 'e', '\\\\'}}; root '/r'", sample=f"request path: first byte '{ch}' (concrete per instance), {n - 1} symbolic bytes", stubs=[PATHM], tier=t, timeout=to, expect_cover=False)
-		for n, t, to in [(2, "quick", None), (3, "quick", None), (4, "thorough", 1200), (5, "thorough", 2400), (6, "thorough", 3000), (7, "thorough", 3000), (8, "thorough", 3000), (9, "thorough", 3000)]
+		for n, t, to in [(2, "quick", None), (3, "quick", None), (4, "quick", 900), (5, "thorough", 2400), (6, "thorough", 3000), (7, "thorough", 3000), (8, "thorough", 3000), (9, "thorough", 3000)]
 		for c, ch in enumerate(["/", ".", "a", "%", "2", "e", "\\\\"])
 	],
 	"meta": {
